@@ -210,6 +210,8 @@ type Result struct {
 	SharedBefore map[string]string `json:"sharedbefore,omitempty"`
 	SharedAfter  map[string]string `json:"sharedafter,omitempty"`
 	Fatal        string            `json:"fatal,omitempty"`
+	// BlockedYields counts baton hand-offs caused by a contended lock (sync shim).
+	BlockedYields uint64 `json:"blockedyields,omitempty"`
 }
 
 // Replay is the self-contained replay file (DESIGN §3.7).
